@@ -106,6 +106,10 @@ fn pattern_alphabets() -> Vec<PatAlpha> {
         PatAlpha { scrutinee: "Some(x)", pats: vec![("Some(v)", Some("v")), ("Some(1)", None), ("None", None)] },
         PatAlpha { scrutinee: "Ok(x)", pats: vec![("Ok(v)", Some("v")), ("Ok(1)", None), ("Err(u)", Some("u")), ("Err(true)", None)] },
         PatAlpha { scrutinee: "Err(b)", pats: vec![("Ok(v)", Some("v")), ("Ok(1)", None), ("Err(u)", Some("u")), ("Err(true)", None)] },
+        // the same never-typed scrutinee types, but computed or let-bound instead of literal
+        PatAlpha { scrutinee: "(if b { :Err(true) } else { :Err(false) })", pats: vec![("Ok(v)", Some("v")), ("Ok(1)", None), ("Err(u)", Some("u")), ("Err(true)", None), ("Err(false)", None)] },
+        PatAlpha { scrutinee: "{ let r9 = if b { :Err(true) } else { :Err(false) } :r9 }", pats: vec![("Ok(v)", Some("v")), ("Err(u)", Some("u")), ("Err(true)", None), ("Err(false)", None)] },
+        PatAlpha { scrutinee: "(if b { :None } else { :None })", pats: vec![("Some(v)", Some("v")), ("Some(1)", None), ("None", None)] },
         PatAlpha { scrutinee: "todo()", pats: vec![("Some(v)", Some("v")), ("None", None), ("1", None)] },
     ]
 }
@@ -181,7 +185,15 @@ fn e1_patterns(out: &mut Vec<Edge>, tier: Tier) {
                         arm.iter().map(|i| pat_shape(a.pats[*i].0, a.pats[*i].1.is_some())).collect::<Vec<_>>().join(" | ")
                     });
                     let has_binder = al.iter().any(|arm| arm.iter().any(|i| a.pats[*i].1.is_some()));
-                    let literal_scrutinee = matches!(a.scrutinee, "None" | "Some(x)" | "Ok(x)" | "Err(b)");
+                    // scrutinees with a never-typed component are keyed by the literal of the same type,
+                    // so that computed forms map to the same root-cause key
+                    let never_class = match a.scrutinee {
+                        "None" | "Some(x)" | "Ok(x)" | "Err(b)" => Some(a.scrutinee),
+                        sc if sc.contains(":Err(true)") => Some("Err(b)"),
+                        sc if sc.contains(":None") => Some("None"),
+                        _ => None,
+                    };
+                    let literal_scrutinee = never_class.is_some();
                     let class_key = match mixed {
                         Some(shape) => {
                             let _ = shape;
@@ -189,7 +201,7 @@ fn e1_patterns(out: &mut Vec<Edge>, tier: Tier) {
                         }
                         None if has_binder && literal_scrutinee && !default => Some(format!(
                             "match on `{}` with a binding pattern accepted although no arm covers every value",
-                            a.scrutinee
+                            never_class.unwrap_or(a.scrutinee)
                         )),
                         None => None,
                     };
